@@ -20,7 +20,8 @@ func init() {
 		id: "C07", level: "exploration", quickN: 20000, thoroughN: 1500000,
 		rule: "One episode = one seeded (program, inputs, entry point, context kind, cancellation instant, caller-stall fault, host-block fault, schedule tape). " +
 			"A case is (program template | entry point Compiled.RunContext/Script.RunContext/Eval | context kind | state of the run when cancellation took effect: beforeSpawn, beforeVMStart, atVMRunEnter, atStep0, midRun, duringHostCall, afterVMFinished); " +
-			"it is non-trivial when the context was cancelled before the call returned. distinct_nontrivial counts distinct such cases; distinct interleavings and abstract states are reported separately.",
+			"it is non-trivial when the context was cancelled before the call returned. distinct_nontrivial counts distinct such cases; distinct interleavings and abstract states are reported separately. " +
+			"A fraction of the episodes (probe enumeratedPrograms) are enumeration episodes: for a short terminating program EVERY cancellation instant k = 0..S+1 is run with each of 9 caller-stall variants, each as a complete sub-episode (counted in evaluations).",
 		assume: []string{
 			"hooks (build tag verif) are placed at the ten hand-off points of RunContext and before every VM instruction; interleavings inside one instruction are not explored",
 			"the runtime's choice inside a both-ready select is never asked: the controller makes exactly one of {result, cancellation} visible before the caller enters select (both orders are explored)",
